@@ -88,8 +88,8 @@ impl Hll8 {
         // Sum over the reciprocals (SUM of 2^-m)
         let mut sum: f64 = 0.0;
         for i in 0..=255 {
-            let power: usize = 1 << self.0[i];
-            sum += 1.0 / (power as f64);
+            // 2^-register; registers imported from hex can hold any value up to 255
+            sum += 2.0_f64.powi(-(self.0[i] as i32));
         }
 
         let estimate = estimate_hyperloglog(sum, zero_count);
